@@ -50,7 +50,7 @@ Qed.
    those with a negative time, and they fail with InvalidTimePointException *)
 Lemma rejected_step p o : rejected o -> step p o = (p, OutInvalidTime).
 Proof.
-  destruct o as [ob s e | ob w | t q | t]; simpl; intros R; try contradiction.
+  destruct o as [ob s e | ob w | t q | t | ob s]; simpl; intros R; try contradiction.
   - unfold add. rewrite R. reflexivity.
   - assert (E : t <? 0 = true) by lia. rewrite E. reflexivity.
 Qed.
@@ -67,7 +67,7 @@ Qed.
 Lemma step_fail_unchanged_lemma p o : InvW p -> snd (step p o) <> OutOk ->
   fst (step p o) = p /\ snd (step p o) = OutInvalidTime /\ rejected o.
 Proof.
-  intros I H. destruct o as [ob s e | ob w | t q | t].
+  intros I H. destruct o as [ob s e | ob w | t q | t | ob s]; [| | | |exfalso; apply H; reflexivity].
   - destruct (neg_opt s || neg_opt e) eqn:N.
     + rewrite (rejected_step p (OAdd ob s e) N). auto.
     + exfalso. apply H. simpl. apply add_nonneg_ok; auto.
